@@ -29,13 +29,20 @@ def operations(doc):
     return out
 
 
-def pointer_get(document, pointer):
+def pointer_get(document, pointer, doc=None):
+    """JSON pointer into the operation definition; with `doc`, local references met on the way are followed (the
+    statement's "by expression" filters see the operation as it is defined, wherever its parts are written down)."""
     if pointer in ("", "/"):
         return document if pointer == "" else MISSING
     if not pointer.startswith("/"):
         return MISSING
     node = document
     for token in pointer[1:].split("/"):
+        if doc is not None and isinstance(node, dict) and "$ref" in node:
+            try:
+                node = oas_schema.deref(doc, node)
+            except Exception:
+                return MISSING
         token = token.replace("~1", "/").replace("~0", "~")
         if isinstance(node, dict):
             if token not in node:
@@ -50,7 +57,7 @@ def pointer_get(document, pointer):
     return node
 
 
-def matches(flt: dict, op) -> bool:
+def matches(flt: dict, op, doc=None) -> bool:
     label, method, path, definition = op
     for key, expected in flt.items():
         if key == "deprecated":
@@ -59,7 +66,7 @@ def matches(flt: dict, op) -> bool:
             continue
         if key == "by":
             pointer, operator, value = expected
-            got = pointer_get(definition, pointer)
+            got = pointer_get(definition, pointer, doc)
             if got is MISSING:
                 # nothing at the pointer: it is not equal to the value
                 if operator == "==":
@@ -107,8 +114,8 @@ def selected(doc, includes, excludes):
     ops = operations(doc)
     out = set()
     for op in ops:
-        verdicts_exc = [matches(f, op) for f in excludes]
-        verdicts_inc = [matches(f, op) for f in includes]
+        verdicts_exc = [matches(f, op, doc) for f in excludes]
+        verdicts_inc = [matches(f, op, doc) for f in includes]
         if None in verdicts_exc or None in verdicts_inc:
             return None
         if any(verdicts_exc):
